@@ -1,8 +1,373 @@
 import Karp.Driver.Proto
+import Karp.Model.ClusterState
+import Karp.Spec.ClusterAbs
 
 namespace Karp.Driver.C11
-open Lean Karp.Driver
+open Lean Karp.Driver Karp.ClusterState Karp.Spec.ClusterAbs
 
-def handle : Handler := fun op _ _ => .error s!"unknown op {op}"
+/-! ## Parsing the history -/
+
+def resOf (l : List Int) (withPods : Bool) : Res :=
+  -- node/claim capacity: [cpu, memory, pods, ext]; pod requests: [cpu, memory, ext]
+  if withPods then { cpu := l.getD 0 0, mem := l.getD 1 0, pods := l.getD 2 0, ext := l.getD 3 0 }
+  else { cpu := l.getD 0 0, mem := l.getD 1 0, ext := l.getD 2 0 }
+
+def intListD (j : Json) (k : String) : Except String (List Int) :=
+  match fldOpt j k with | none => pure [] | some v => intList v
+
+def strD (j : Json) (k : String) : Except String String :=
+  match fldOpt j k with | none => pure "" | some v => asStr v
+
+structure World where
+  /-- PVC name → driver ("" = the PVC does not exist) -/
+  pvcs : List (String × String)
+
+def parsePvcs (inp : Json) : Except String World := do
+  let l ← arrF inp "pvcs"
+  let ps ← l.mapM (fun j => do pure ((← strF j "n"), (← strD j "d")))
+  pure { pvcs := ps }
+
+/-- `scheduling.GetVolumes`: a PVC that does not exist is skipped; the volume id is "namespace/name" -/
+def resolveVols (w : World) (names : List String) : List Vol :=
+  names.foldl (fun acc n =>
+    match w.pvcs.find? (·.1 = n) with
+    | some (_, d) => if d = "" then acc else (if acc.contains (d, "default/" ++ n) then acc else acc ++ [(d, "default/" ++ n)])
+    | none => acc) []
+
+def parsePort (j : Json) : Except String HostPort := do
+  let ip ← strD j "ip"
+  pure { ip := if ip = "" then "0.0.0.0" else ip, port := (← natF j "port"), proto := (← strF j "proto") }
+
+def parseEvent (w : World) (i : Nat) (j : Json) : Except String Event := do
+  let t ← strF j "t"
+  let name ← strD j "name"
+  match t with
+  | "node" =>
+    let lims ← (← arrD j "lim").mapM (fun l => do
+      let n ← intF l "n"
+      pure ((← strF l "d"), if n < 0 then none else some n.toNat))
+    pure (.setNode { name := name, pid := (← strD j "pid"), pool := (← strD j "pool"), reg := (← boolD j "reg" false),
+                     init := (← boolD j "init" false), it := (← boolD j "it" false), cap := resOf (← intListD j "cap") true,
+                     del := (← boolD j "del" false), limits := lims, ver := i })
+  | "nodeGone" => pure (.delNode name)
+  | "claim" =>
+    pure (.setClaim { name := name, pid := (← strD j "pid"), pool := (← strD j "pool"), cap := resOf (← intListD j "cap") true,
+                      del := (← boolD j "del" false), term := (← boolD j "term" false),
+                      managed := !(← boolD j "unmanaged" false), ver := i })
+  | "claimGone" => pure (.delClaim name)
+  | "pod" =>
+    let phase ← strD j "phase"
+    let req := resOf (← intListD j "req") false
+    let lim := resOf (← intListD j "lm") false
+    let ports ← (← arrD j "ports").mapM parsePort
+    let vols ← match fldOpt j "vols" with | none => pure [] | some v => strList v
+    pure (.setPod { name := name, node := (← strD j "node"), terminal := phase = "Succeeded" || phase = "Failed",
+                    req := { req with pods := 1 }, lim := { lim with pods := 1 }, ds := (← boolD j "ds" false),
+                    cost := evictionCost (← intO j "dc") (← intO j "prio"), ports := ports, vols := resolveVols w vols, ver := i })
+  | "podGone" => pure (.delPod name)
+  | "rn" => pure (.recNode name)
+  | "rc" => pure (.recClaim name)
+  | "rp" => pure (.recPod name)
+  | "mark" => pure (.mark (← strD j "pid"))
+  | "unmark" => pure (.unmark (← strD j "pid"))
+  | "nominate" => pure (.nominate (← strD j "pid"))
+  | _ => throw s!"bad event type {t}"
+
+/-! ## The observation universe (same derivation as `universeOf` in the harness) -/
+
+structure Universe where
+  pools : List String
+  claims : List String
+  pods : List String
+  drivers : List String
+  pvcIDs : List String
+
+def sortDedup (l : List String) : List String :=
+  let a := l.toArray.qsort (· < ·)
+  a.toList.foldr (fun x acc => match acc with | y :: _ => if x = y then acc else x :: acc | [] => [x]) []
+
+def universeOf (w : World) (evs : List Event) : Universe :=
+  let pools := "" :: evs.filterMap (fun e => match e with | .setNode n => some n.pool | .setClaim c => some c.pool | _ => none)
+  let claims := evs.filterMap (fun e => match e with | .setClaim c => some c.name | .delClaim k => some k | .recClaim k => some k | _ => none)
+  let pods := evs.filterMap (fun e => match e with | .setPod p => some p.name | .delPod k => some k | .recPod k => some k | _ => none)
+  let drivers := (w.pvcs.filterMap (fun p => if p.2 = "" then none else some p.2)) ++
+    (evs.flatMap (fun e => match e with | .setNode n => n.limits.map (·.1) | _ => []))
+  { pools := sortDedup pools, claims := sortDedup claims, pods := sortDedup pods, drivers := sortDedup drivers,
+    pvcIDs := sortDedup (w.pvcs.map (fun p => "default/" ++ p.1)) }
+
+/-! ## Rendering an observation -/
+
+/-- what both the model's StateNode and the specification's AbsNode are projected to before rendering -/
+structure ObsNode where
+  pid : String
+  name : String
+  nodeTag : String
+  claimTag : String
+  pool : String
+  reg : Bool
+  init : Bool
+  marked : Bool
+  deleted : Bool
+  nominated : Bool
+  cap : Res
+  req : Res
+  lim : Res
+  dreq : Res
+  dlim : Res
+  cost : Int
+  ports : Map (List HostPort)
+  volumes : List Vol
+  limits : Map Nat
+
+def sumMap (m : Map Res) : Res := m.foldr (fun e acc => e.2.add acc) Res.zero
+
+def tagN : Option NodeObj → String | some n => s!"{n.name}#{n.ver}" | none => ""
+def tagC : Option ClaimObj → String | some c => s!"{c.name}#{c.ver}" | none => ""
+
+def obsOfSNode (_pid : String) (s : SNode) : ObsNode :=
+  { pid := s.providerID, name := s.name, nodeTag := tagN s.node, claimTag := tagC s.claim, pool := s.pool,
+    reg := s.registered, init := s.initialized, marked := s.markedForDeletion, deleted := s.deleted, nominated := s.nominated,
+    cap := s.capacity, req := sumMap s.podReq, lim := sumMap s.podLim, dreq := sumMap s.dsReq, dlim := sumMap s.dsLim,
+    cost := costUnit + s.costs.foldr (fun e acc => e.2 + acc) 0, ports := s.ports, volumes := s.volumes, limits := s.limits }
+
+def obsOfAbs (a : AbsNode) : ObsNode :=
+  { pid := a.pid, name := a.name, nodeTag := tagN a.node?, claimTag := tagC a.claim?, pool := a.pool,
+    reg := a.registered, init := a.initialized, marked := a.markedForDeletion, deleted := a.deleted, nominated := a.nominated,
+    cap := a.capacity, req := a.requests, lim := a.limits, dreq := a.dsRequests, dlim := a.dsLimits,
+    cost := a.cost, ports := a.ports, volumes := a.volumes, limits := a.volLimits }
+
+def jRes (r : Res) : Json := jArr [jInt r.cpu, jInt r.mem, jInt r.pods, jInt r.ext, jInt r.nodes]
+
+def probeIPs : List String := ["0.0.0.0", "10.0.0.1", "10.0.0.2", "10.0.0.3"]
+def probePorts : List Nat := [80, 443]
+def probeProtos : List String := ["TCP", "UDP"]
+def portProbes : List HostPort :=
+  probeIPs.flatMap fun ip => probePorts.flatMap fun port => probeProtos.map fun proto => { ip := ip, port := port, proto := proto }
+
+def hostPortMask (reserved : Map (List HostPort)) (usedBy : String) : Nat :=
+  (portProbes.foldl (fun (acc : Nat × Nat) pr =>
+    (if portsConflict reserved usedBy [pr] then acc.1 + 2 ^ acc.2 else acc.1, acc.2 + 1)) (0, 0)).1
+
+def volProbes (u : Universe) : List (List Vol) :=
+  let fresh := ["~f1", "~f2", "~f3"]
+  [[]] ++ u.drivers.flatMap fun d =>
+    ([1, 2, 3].map fun j => (fresh.take j).map fun f => (d, f)) ++
+    (u.pvcIDs.flatMap fun x => [0, 1, 2].map fun j => (d, x) :: (fresh.take j).map fun f => (d, f))
+
+def renderNode (u : Universe) (probes : List (List Vol)) (o : ObsNode) : Json :=
+  let fl := (if o.reg then "R" else "") ++ (if o.init then "I" else "") ++ (if o.marked then "M" else "") ++
+            (if o.deleted then "D" else "") ++ (if o.nominated then "N" else "")
+  let hp := hostPortMask o.ports "zz-probe" :: u.pods.map (hostPortMask o.ports)
+  let vol := String.ofList (probes.map fun pr => if volExceeds o.volumes o.limits pr then '1' else '0')
+  jObj [("pid", jStr o.pid), ("name", jStr o.name), ("node", jStr o.nodeTag), ("claim", jStr o.claimTag), ("pool", jStr o.pool),
+        ("fl", jStr fl), ("cap", jRes o.cap), ("req", jRes o.req), ("lim", jRes o.lim), ("dreq", jRes o.dreq), ("dlim", jRes o.dlim),
+        ("cost", jInt o.cost), ("hp", jArr (hp.map jNat)), ("vol", jStr vol)]
+
+def sortNodes (l : List ObsNode) : List ObsNode := (l.toArray.qsort (fun a b => a.pid < b.pid)).toList
+
+def renderView (u : Universe) (probes : List (List Vol)) (nodes : List ObsNode)
+    (poolRes : String → Res) (counts : String → Nat × Nat × Nat) (claimEx claimUn : String → Bool) : Json :=
+  jObj [("nodes", jArr ((sortNodes nodes).map (renderNode u probes))),
+        ("pools", jArr (u.pools.map fun p =>
+          let (a, d, pd) := counts p
+          jObj [("name", jStr p), ("res", jRes (poolRes p)), ("cnt", jArr [jNat a, jNat d, jNat pd])])),
+        ("claims", jArr (u.claims.map fun c =>
+          jStr (c ++ ":" ++ (if claimEx c then "E" else "-") ++ (if claimUn c then "U" else "-"))))]
+
+def modelView (u : Universe) (probes : List (List Vol)) (c : Cluster) : Json :=
+  renderView u probes (c.nodes.map fun (pid, s) => obsOfSNode pid s)
+    (fun p => c.poolRes.getD p Res.zero) (fun p => c.np.counts p)
+    (fun n => c.claimNameToPid.has n) (fun n => c.claimNameToPid.get n = some "")
+
+def absView (u : Universe) (probes : List (List Vol)) (api : Api) (g : Ghost) : Json :=
+  renderView u probes ((absNodes api g).map obsOfAbs)
+    (fun p => absPoolRes api g p) (fun p => let (a, d) := absCounts api g p; (a, d, 0))
+    (fun n => absClaimExists api n) (fun n => absClaimUnlaunched api n)
+
+/-! ## Difference reporting -/
+
+partial def diffJson (path : String) : Json → Json → Option String
+  | .arr a, .arr b =>
+    if a.size ≠ b.size then some s!"{path}: {a.size} vs {b.size} entries: {(Json.arr a).compress} vs {(Json.arr b).compress}"
+    else (List.range a.size).findSome? fun i => diffJson s!"{path}[{i}]" a[i]! b[i]!
+  | .obj a, .obj b =>
+    let ka := a.toList.map (·.1)
+    let kb := b.toList.map (·.1)
+    if ka ≠ kb then some s!"{path}: keys {ka} vs {kb}"
+    else a.toList.findSome? fun (k, v) =>
+      match b.toList.find? (·.1 = k) with
+      | some (_, w) =>
+        let tag := match v.getObjVal? "pid" with | .ok (.str p) => s!"<{p}>" | _ => ""
+        diffJson s!"{path}{tag}.{k}" v w
+      | none => some s!"{path}.{k} missing"
+  | x, y => if jsonEq x y then none else some s!"{path}: {x.compress} vs {y.compress}"
+
+/-! ## The op -/
+
+structure StepObs where
+  i : Nat
+  r : String
+  v : Option Json
+  q : Bool
+
+def parseSteps (impl : Json) : Except String (List StepObs) := do
+  (← arrF impl "steps").mapM fun j => do
+    pure { i := (← natF j "i"), r := (← strD j "r"), v := fldOpt j "v", q := (← boolD j "q" false) }
+
+def recStr : RecResult → String | .ok => "ok" | .requeue => "requeue" | .none => ""
+
+/-- the node objects of a rendered view -/
+def nodesOf (v : Json) : List Json := match v.getObjVal? "nodes" with | .ok (.arr a) => a.toList | _ => []
+def fieldOf (o : Json) (k : String) : Json := match o.getObjVal? k with | .ok v => v | _ => Json.null
+def pidOf (o : Json) : String := match o.getObjVal? "pid" with | .ok (.str p) => p | _ => "?"
+
+def nodeFields : List String := ["pid", "name", "node", "claim", "pool", "fl", "cap", "req", "lim", "dreq", "dlim", "cost", "hp", "vol"]
+
+/-- The property's verdict at a quiescent point: the implementation's view equals the from-scratch view `abs`.
+    When not `strict`, a field of a state node is exempted exactly where the recorded defects make a difference,
+    i.e. where the model of the code as it is (`cur`) and the model with the proposed repairs (`fixed`) differ. -/
+def specCompare (strict : Bool) (cur fixed abs impl : Json) : Option String :=
+  let an := nodesOf abs
+  let im := nodesOf impl
+  if an.map pidOf ≠ im.map pidOf then
+    some s!"state nodes: specification {an.map pidOf} vs implementation {im.map pidOf}"
+  else
+    let cn := nodesOf cur
+    let fn := nodesOf fixed
+    let nodeDiff := (an.zip im).findSome? fun (a, i) =>
+      let pid := pidOf a
+      let c := cn.find? (fun x => pidOf x = pid)
+      let f := fn.find? (fun x => pidOf x = pid)
+      nodeFields.findSome? fun k =>
+        let exempt := !strict && (match c, f with
+          | some c, some f => !jsonEq (fieldOf c k) (fieldOf f k)
+          | _, _ => false)
+        if exempt then none else diffJson s!"view.nodes<{pid}>.{k}" (fieldOf a k) (fieldOf i k)
+    match nodeDiff with
+    | some d => some d
+    | none =>
+      match diffJson "view.pools" (fieldOf abs "pools") (fieldOf impl "pools") with
+      | some d => some d
+      | none => diffJson "view.claims" (fieldOf abs "claims") (fieldOf impl "claims")
+
+/-- Runs the model of the code as it is (`Fixes.current`), the model with the proposed repairs (`Fixes.all`), the ghost
+    and the API in lockstep over the history and checks, per cache-affecting event:
+    * model view = implementation view (and reconcile result class, quiescence)                   → `allowed`
+    * at quiescent points of a well-formed history:
+        implementation view = from-scratch specification (see `specCompare`)                       → `spec`
+        the implementation's own from-scratch oracle (fresh Cluster) = specification               → `allowed`
+        the repaired model = specification (otherwise an unrecorded divergence class exists)       → `allowed` -/
+def history (inp impl : Json) : Except String Resp := do
+  let w ← parsePvcs inp
+  let strict ← boolD inp "strict" false
+  let evJ ← arrF inp "ev"
+  let evs ← (evJ.zipIdx).mapM (fun (j, i) => parseEvent w i j)
+  let u := universeOf w evs
+  let probes := volProbes u
+  let steps ← parseSteps impl
+  let fresh ← (← arrD impl "fresh").mapM (fun j => do pure ((← natF j "i"), (← fld j "v")))
+  let panicAt ← natO impl "panicAt"
+  let wf := wStatic evs
+  let fxCur := Fixes.current
+  -- state of the loop
+  let mut c : Cluster := {}
+  let mut cf : Cluster := {}
+  let mut fixedAlive := true
+  let mut api : Api := {}
+  let mut g : Ghost := {}
+  let mut wfRun := wf
+  let mut prevImpl : Json := Json.null
+  let mut stepsLeft := steps
+  let mut allowed := true
+  let mut whyA := ""
+  let mut specOk := true
+  let mut whyS := ""
+  let mut specPoints := 0
+  let mut exemptPoints := 0
+  let mut i := 0
+  let mut modelPanic : Option Nat := none
+  for e in evs do
+    api := api.step e
+    if !(wStep g api e) then wfRun := false
+    g := g.step api e
+    if !e.isApi then
+      if fixedAlive then
+        match cf.step Fixes.all api e with
+        | .ok (cf', _) => cf := cf'
+        | .error _ => fixedAlive := false
+      match c.step fxCur api e with
+      | .error _ =>
+        modelPanic := some i
+        break
+      | .ok (c', r) =>
+        c := c'
+        if panicAt == some i then
+          -- the implementation panicked here, the model did not
+          break
+        match stepsLeft with
+        | [] =>
+          if allowed then
+            allowed := false
+            whyA := s!"event {i}: the implementation reported no step"
+        | s :: rest =>
+          stepsLeft := rest
+          if s.i ≠ i then
+            if allowed then
+              allowed := false
+              whyA := s!"event {i}: implementation step index {s.i}"
+          let implV := match s.v with | some v => v | none => prevImpl
+          prevImpl := implV
+          let mv := modelView u probes c
+          if allowed then
+            if !jsonEq mv implV then
+              allowed := false
+              whyA := s!"event {i}: model vs implementation: {(diffJson "view" mv implV).getD "?"}"
+            else if recStr r ≠ s.r then
+              allowed := false
+              whyA := s!"event {i}: reconcile result model {recStr r} vs implementation {s.r}"
+            else if s.q ≠ g.quiescent then
+              allowed := false
+              whyA := s!"event {i}: quiescence model {g.quiescent} vs harness {s.q}"
+          if g.quiescent && wfRun then
+            let av := absView u probes api g
+            let fv := if fixedAlive then modelView u probes cf else Json.null
+            specPoints := specPoints + 1
+            if !jsonEq mv fv then exemptPoints := exemptPoints + 1
+            if specOk then
+              match specCompare strict mv fv av implV with
+              | some d =>
+                specOk := false
+                whyS := s!"event {i} (every changed object reconciled): from-scratch specification vs implementation: {d}"
+              | none => pure ()
+            if allowed && !jsonEq av fv then
+              allowed := false
+              whyA := s!"event {i}: the model with all recorded defects repaired does not equal the specification (unrecorded divergence class): {(diffJson "view" av fv).getD "?"}"
+            match fresh.find? (·.1 = i) with
+            | some (_, frv) =>
+              if allowed && !jsonEq av frv then
+                allowed := false
+                whyA := s!"event {i}: specification vs the implementation's own fresh Cluster: {(diffJson "view" av frv).getD "?"}"
+            | none => pure ()
+    i := i + 1
+  -- panics must agree
+  if allowed then
+    match modelPanic, panicAt with
+    | some a, some b => if a ≠ b then allowed := false; whyA := s!"model panics at event {a}, implementation at {b}"
+    | some a, none => allowed := false; whyA := s!"model panics (nil dereference) at event {a}, implementation does not"
+    | none, some b => allowed := false; whyA := s!"implementation panics at event {b}, model does not"
+    | none, none => pure ()
+  -- a panic inside a well-formed history violates the property outright
+  if wfRun && panicAt.isSome && specOk then
+    specOk := false
+    whyS := s!"the implementation panicked at event {panicAt.get!} of a well-formed history"
+  pure { allowed := some allowed, spec := some specOk,
+         why := if !specOk then whyS else whyA,
+         extra := some (jObj [("wellFormed", jBool wfRun), ("specPoints", jNat specPoints), ("exemptPoints", jNat exemptPoints)]) }
+
+def handle : Handler := fun op inp impl =>
+  match op with
+  | "c11.history" => history inp impl
+  | "c11.orders" => history inp impl
+  | _ => .error s!"unknown op {op}"
 
 end Karp.Driver.C11
